@@ -83,6 +83,18 @@ def gen_T20():
          'Owner.reload: the try body is no longer the import phase alone')
     eb = ' '.join(_norm(x) for x in t.orelse)
     need('callback.die()' in eb and 'plugin.loadPluginClass(irc, module)' in eb, 'Owner.reload: else clause changed')
+    # --- plugin.loadPluginModule: how a requested name is mapped to a directory entry
+    pt = tree('src/plugin.py')
+    lm = find_def(pt, 'loadPluginModule')
+    ifs = [n for n in lm.body if isinstance(n, ast.If) and _norm(n.test) == 'name not in files']
+    need(len(ifs) == 1, 'loadPluginModule: the `if name not in files:` lookup changed')
+    blk = ifs[0].body
+    need(len(blk) == 3 and _norm(blk[0]) == "search = lambda x: re.search('(?i)^%s$' % (re.escape(name),), x)",
+         'loadPluginModule: the case-insensitive name match is no longer re.search(r"(?i)^%%s$" %% (re.escape(name),), x) '
+         '(escaped name, anchored at both ends): %s' % (_norm(blk[0]) if blk else None))
+    need(_norm(blk[1]) == 'matched_names = list(filter(search, files))', 'loadPluginModule: matched_names changed')
+    need(isinstance(blk[2], ast.If) and _norm(blk[2].test) == 'len(matched_names) >= 1'
+         and [_norm(x) for x in blk[2].body] == ['name = matched_names[0]'], 'loadPluginModule: choice among matched names changed')
     # --- every write to self.callbacks in class Irc: the list object is shared by all Irc objects (module-level
     # _callbacks, default argument of Irc.__init__) and must never be rebound outside __init__
     irc_cls = find_class(it, 'Irc')
